@@ -231,6 +231,68 @@ def check_form_case(case, st):
         st.violation('target-form:block-count:%s' % tag, d)
 
 
+# ---- several services of ONE host (same name, different ports), healthy and failing ones mixed: each entry is answered by its own port
+def samehost_cases():
+    out = []
+    for f in FAILING:
+        if f == 'UNRESOLVABLE':
+            continue
+        for order in (0, 1):
+            for fmt in ('text', 'json'):
+                for threads in (1, 2):
+                    out.append(('samehost', f, order, fmt, threads))
+    return out
+
+
+def check_samehost_case(case, st):
+    import socket as _s
+    from mc import runner, vnet
+    _t, f, order, fmt, threads = case
+    host, ip = 'svc.example', '10.8.9.1'
+    bad = MT.ALL[f]('bad')
+    faults = {('bad',) + k[1:]: v for k, v in getattr(MT.ALL[f]('bad'), '_planned', {}).items()}
+    good = MT.ALL['CLEAN']('good')
+    # the healthy service on the default port and the failing one on 2222, or the other way round
+    gp, bp = (22, 2222) if order == 0 else (2222, 22)
+    w = vnet.World(servers={(ip, gp): good, (ip, bp): bad}, resolver={host: [(int(_s.AF_INET), ip)]}, faults=faults)
+    line = lambda p: host if p == 22 else '%s:%d' % (host, p)
+    lines = [line(gp), line(bp)] if order == 0 else [line(bp), line(gp)]
+    res, _s2 = sched.run_scheduled(runner.run_cli, ['-n', '--skip-rate-test'] + (['-j'] if fmt == 'json' else []) + ['-T', MT.targets_file(lines), '--threads', str(threads)], w, (), ('connect',))
+    st.execution(res.world, outcome=('samehost', res.status, fmt), root=case, nontrivial=case)
+    d = {'targets': lines, 'failing': f, 'fmt': fmt, 'threads': threads, 'status': res.status, 'stdout_tail': res.stdout[-300:]}
+    if res.hang or res.exc:
+        st.violation('same-host:hang-or-escaped-exception', dict(d, hang=res.hang, exc=res.exc))
+        return
+    exp_bad = MT.run_single(f, 0, 'text', None, via_targets_file=False).status
+    exp_good = MT.run_single('CLEAN', 1, 'text', None, via_targets_file=False).status
+    exp = max((exp_bad, exp_good), key=lambda x: RANK.get(x, 4))
+    if res.status != exp:
+        st.violation('same-host:exit-status:got-%s-expected-%s' % (res.status, exp), d)
+    if not good.records or (f not in ('REFUSED', 'CONNTIMEOUT') and not bad.records):
+        st.violation('same-host:a-listed-service-was-never-contacted', dict(d, good_connections=len(good.records), failing_connections=len(bad.records)))
+    if fmt == 'json':
+        try:
+            doc = json.loads(res.stdout)
+        except ValueError:
+            st.violation('same-host:json-not-one-document', d)
+            return
+        if not isinstance(doc, list) or len(doc) != 2:
+            st.violation('same-host:json-array-length', d)
+            return
+        mine = [e for e in doc if isinstance(e, dict) and str(e.get('target', '')).endswith(':%d' % gp)]
+        if len(mine) != 1 or 'enc' not in mine[0] or [x['algorithm'] for x in mine[0]['enc']] != ['aes256-gcm@openssh.com']:
+            st.violation('same-host:healthy-service-lost-or-swapped-report', d)
+    else:
+        blocks = MT.split_text(res.stdout)
+        if len(blocks) != 2:
+            st.violation('same-host:block-count', d)
+            return
+        want_label = '(gen) target: %s' % (host if gp == 22 else '%s:%d' % (host, gp))
+        mine = [b for b in blocks if any(l.rstrip() in (want_label, want_label + ':22') or l.startswith(want_label) for l in b.split('\n'))]
+        if not any('aes256-gcm@openssh.com' in b for b in mine):
+            st.violation('same-host:healthy-service-lost-or-swapped-report', d)
+
+
 # ---- the same target listed more than once: every *listed* target yields a result block
 def dup_cases():
     out = []
@@ -349,6 +411,8 @@ def work(chunk, st):
     for case in chunk:
         if case[0] == 'rate':
             check_rate_case(case, st)
+        elif case[0] == 'samehost':
+            check_samehost_case(case, st)
         elif case[0] == 'ascii':
             check_ascii_case(case, st)
         elif case[0] == 'dup':
@@ -399,6 +463,7 @@ def cases(tier):
     out += dup_cases()
     out += ascii_cases()
     out += rate_cases()
+    out += samehost_cases()
     return out
 
 
@@ -427,7 +492,7 @@ def run(tier, seed):
         PID, tier, seed, st, t0,
         rule='target lists of length 2 (quick; plus one triple per failure) / 2-3 (thorough) mixing healthy archetypes %s with every failure '
              'archetype %s in every position x threads x {text,-j}; DFS over gate schedules (preemption bound quick 1 / thorough 2); plus '
-             'targets-file syntax failures (out-of-range port, blank/whitespace lines); the same target listed two or three times; every failing archetype written as [v6]:port, [v6], v6, v4:port, v4, name:port next to a healthy target; lists with the connection-rate check switched on around a target it has nothing to measure on; non-trivial = distinct (list, threads, format, completion order)' % (HEALTHY, FAILING),
+             'targets-file syntax failures (out-of-range port, blank/whitespace lines); the same target listed two or three times; every failing archetype written as [v6]:port, [v6], v6, v4:port, v4, name:port next to a healthy target; lists with the connection-rate check switched on around a target it has nothing to measure on; a healthy and a failing service of one host name on two ports; non-trivial = distinct (list, threads, format, completion order)' % (HEALTHY, FAILING),
         assumptions=['thread switches only at virtual I/O gates', 'per-target statuses come from fresh single-target runs in the same environment'],
         exhaustive=True, traces_validated=validated, extra={'cases': len(cs)})
 
